@@ -219,6 +219,14 @@ pub fn run(o: &mut Out, tier: &str, seed: u64) {
     let thorough = tier == "thorough";
     // (1) every length 0..=1100, seed-derived content; scalar of each as well
     for len in 0..=1100usize { let m = content(&mut rng, len); msg_case(o, &m, "len0..1100", true); }
+    // (1b) messages whose CONTENT looks like something the library parses elsewhere: "0x"-prefixed hex text, plain hex text, a lone "0x",
+    //      decimal text, whitespace, and binary messages that merely START with the bytes 0x30 0x78 — a hash is a function of the bytes,
+    //      whatever they spell (a shared "strip the 0x prefix" helper reached Hash::new once)
+    for len in [0usize, 1, 2, 3, 6, 30, 62, 64, 66, 134, 136, 200] {
+        let body = content(&mut rng, len);
+        for pre in [&b"0x"[..], b"0X", b"0x0x", b" ", b"\n", b"00", b"monero:"] { let mut m = pre.to_vec(); m.extend_from_slice(&body); msg_case(o, &m, "textlike.prefix", true); }
+        let hx = hex(&body); msg_case(o, hx.as_bytes(), "textlike.hex", true); msg_case(o, format!("0x{}", hx).as_bytes(), "textlike.0xhex", true);
+    }
     // (2) block-boundary lengths 136k-2 .. 136k+2 up to ~10 kB
     for k in 1..=76usize { for d in [-2i64, -1, 0, 1, 2] { let len = (136 * k as i64 + d) as usize; let m = content(&mut rng, len); msg_case(o, &m, "boundary136k", k % 8 == 0); } }
     // (3) longer random messages
